@@ -67,6 +67,8 @@ def effect_events(ctx, fi, state_attrs, eff):
 
 
 def run(ctx):
+    from .atomic import validate_before_mutate as _atomic
+    _atomic(ctx, 'C16.R3', ('Recipe.uses', 'Recipe.transfer', 'Recipe.create_container', 'Recipe.create_solution', 'Recipe.create_solution_from', 'Recipe.remove', 'Recipe.dilute', 'Recipe.fill_to', 'Recipe.start_stage', 'Recipe.end_stage'))
     from .iterables import single_pass_iterables as _single_pass
     _single_pass(ctx, 'C16.R3', ('Recipe.uses',))
     model = ctx.model
